@@ -158,6 +158,26 @@ for it in range(N):
                     if not np.array_equal(col, pr, equal_nan=True): fail("strategy-column-carries-child-index", node=m.full_name, child=sc)
                     evals += 1
     if it < 2: samples.append(dict(spec=repr(spec)[:200], form=form, final=float(tl.strategy.value)))
+# ---- node objects handed to several strategies are copied, whatever their flags: every tree owns its nodes
+for lazy in (False, True):
+    shared = [Security("a", lazy_add=lazy), Security("b", lazy_add=lazy)]
+    root = Strategy("root", stack())
+    s1 = Strategy("s1", stack(), children=shared, parent=root)
+    s2 = Strategy("s2", stack(), children=shared, parent=root)
+    top2 = Strategy("top2", stack(), children=[Strategy("t1", stack(), children=shared), Strategy("t2", stack(), children=shared)])
+    evals += 1
+    for holder in (s1, s2, top2["t1"], top2["t2"]):
+        for nm in ("a", "b"):
+            holder._create_child_if_needed(nm) if lazy and holder.root is holder else None
+            node = holder.children.get(nm) or holder._lazy_children.get(nm)
+            if node is None or any(node is x for x in shared): fail("shared-node-objects-are-copied-per-strategy", holder=holder.full_name, child=nm, lazy=lazy)
+    nodes = [(h.children.get(nm) or h._lazy_children.get(nm)) for h in (s1, s2) for nm in ("a", "b")]
+    if len({id(x) for x in nodes}) != 4: fail("sibling-strategies-own-distinct-copies", lazy=lazy)
+    data = mkdata(12)
+    t = bt.Backtest(root, data, progress_bar=False); t.run()
+    for h in (t.strategy["s1"], t.strategy["s2"]):
+        for c in h.children.values():
+            if c.parent is not h or c.root is not t.strategy: fail("shared-template-children-wired-to-their-own-strategy", holder=h.full_name, child=c.name, lazy=lazy)
 # ---- duplicates are refused in every assembly form
 def expect_raise(name, fn):
     global evals
